@@ -539,15 +539,29 @@ def rule_d6(ck, prog, S):
     prevp, curp = f.params[0]["name"], f.params[1]["name"]
     # character comparisons
     tests = {}
-    for n in f.nodes.values():
-        if n.k == "BinaryOperator" and n.get("op") in ("==", "!="):
-            l, r = n.child(0).strip_all_casts(), n.child(1)
-            c = C.const_of(r)
-            p = l.get("path") or ""
-            if c is not None and "->ptr[" in p:
-                tests.setdefault(p.split("->")[0] + ("[0]" if p.endswith("[0]") else "[scan]"), set()).add(chr(c))
-            elif c is not None and p.startswith("*") and p.endswith("->ptr"):
-                tests.setdefault(p[1:].split("->")[0] + "[0]", set()).add(chr(c))
+    # the function itself and the static helpers it hands one of its two headers to (their parameter stands for that header)
+    hosts = [(f, {prevp: prevp, curp: curp})]
+    for c_ in f.calls():
+        h_ = prog.fn(c_.get("callee") or "")
+        if h_ is None or not h_.static or h_ is f or any(h_ is x for x, _ in hosts):
+            continue
+        ren = {}
+        for i_, a_ in enumerate(C.call_args(c_)):
+            ap = a_.strip_all_casts().get("path")
+            if ap in (prevp, curp) and i_ < len(h_.params):
+                ren[h_.params[i_]["name"]] = ap
+        if ren:
+            hosts.append((h_, ren))
+    for h_, ren in hosts:
+        for n in h_.nodes.values():
+            if n.k == "BinaryOperator" and n.get("op") in ("==", "!="):
+                l, r = n.child(0).strip_all_casts(), n.child(1)
+                c = C.const_of(r)
+                p = l.get("path") or ""
+                if c is not None and "->ptr[" in p and p.split("->")[0] in ren:
+                    tests.setdefault(ren[p.split("->")[0]] + ("[0]" if p.endswith("[0]") else "[scan]"), set()).add(chr(c))
+                elif c is not None and p.startswith("*") and p.endswith("->ptr") and p[1:].split("->")[0] in ren:
+                    tests.setdefault(ren[p[1:].split("->")[0]] + "[0]", set()).add(chr(c))
     st = K.site(f, "deciding-characters", 0)
     want = {curp + "[0]": {"*", ":"}, prevp + "[0]": {"*"}, prevp + "[scan]": {":"}}
     if tests != want:
@@ -620,16 +634,29 @@ def rule_d6(ck, prog, S):
                         "(ptr -= %s; len += %s; copy %s)" % (amt, add[0].child(1).src, a[2].src))
     # scan starts at prev->len and counts down to the last ':'
     st = K.site(f, "scan", 0)
-    loops = C.loops(f)
-    idxs = [n for n, t in C.stores(f) if n.get("op") == "=" and n.child(1).strip_all_casts().get("path") == prevp + "->len"]
-    dec = [n for n, t in C.stores(f) if n.k == "UnaryOperator" and n.get("op") == "--"]
-    # the scan loop is the one that holds the ':' test
-    colon_blocks = {f.where[n.id][0].id for n in f.nodes.values() if n.k == "BinaryOperator" and n.get("op") in ("==", "!=") and
-                    C.const_of(n.child(1)) == ord(":") and n.id in f.where}
-    scan_loops = [(h, bd) for h, bd in loops if colon_blocks & set(bd)]
-    dec_in = [n for n in dec if scan_loops and f.where[n.id][0].id in scan_loops[0][1]]
+    scan_loops, idxs, dec_in, sf = [], [], [], f
+    for h_, ren in hosts:
+        pn = [k_ for k_, v_ in ren.items() if v_ == prevp]
+        if not pn:
+            continue
+        loops = C.loops(h_)
+        idxs_h = [n for n, t in C.stores(h_) if n.get("op") == "=" and n.child(1).strip_all_casts().get("path") == pn[0] + "->len"]
+        for dn in h_.nodes.values():
+            if dn.k == "DeclStmt":
+                for dd in dn.get("decls", []):
+                    if "init" in dd and h_.nodes[dd["init"]].strip_all_casts().get("path") == pn[0] + "->len":
+                        idxs_h.append(dn)
+        dec = [n for n, t in C.stores(h_) if n.k == "UnaryOperator" and n.get("op") == "--"]
+        # the scan loop is the one that holds the ':' test
+        colon_blocks = {h_.where[n.id][0].id for n in h_.nodes.values() if n.k == "BinaryOperator" and n.get("op") in ("==", "!=") and
+                        C.const_of(n.child(1)) == ord(":") and n.id in h_.where}
+        sl = [(hd, bd) for hd, bd in loops if colon_blocks & set(bd)]
+        if sl:
+            scan_loops += sl
+            idxs, sf = idxs_h, h_
+            dec_in = [n for n in dec if h_.where[n.id][0].id in sl[0][1]]
     if len(scan_loops) == 1 and idxs and dec_in:
-        ck.holds("C02-D6", st, K.loc(f, idxs[0]), "scan from previous->len downwards")
+        ck.holds("C02-D6", st, K.loc(sf, idxs[0]), "scan from previous->len downwards")
     else:
         ck.violated("C02-D6", st, K.loc(f), "the path scan does not run from the end of the previous header downwards")
     ck.analysed(f)
